@@ -229,12 +229,21 @@ class RuntimeV1_0(Runtime):
         Returns:
             List[dict]: The list of computed next steps.
         """
-        next_steps = compute_next_steps(
-            events,
-            self.flow_configs,
-            rails_config=self.config,
-            processing_log=processing_log,
-        )
+        try:
+            next_steps = compute_next_steps(
+                events,
+                self.flow_configs,
+                rails_config=self.config,
+                processing_log=processing_log,
+            )
+        except Exception as e:
+            # A statement of a flow could not be executed (e.g. an expression that cannot
+            # be evaluated with the values at hand): like a failed action, this ends the
+            # turn with the internal error message.
+            log.warning("Error while computing the next steps: %s", e, exc_info=True)
+            return self._internal_error_action_result(
+                "I'm sorry, an internal error has occurred."
+            ).events
 
         # If there are any StartInternalSystemAction events, we mark if they are system actions or not
         for event in next_steps:
